@@ -47,6 +47,49 @@ func ConnectClient(client *mcp.Client, sc *ScriptConn, version string, caps stri
 	}
 }
 
+// ConnectClientFallback is like ConnectClient, but the client asks for the default (2026-07-28)
+// protocol: the scripted peer rejects server/discover as an unknown method, so that the client falls
+// back to the legacy initialize handshake, which the peer answers with version.
+func ConnectClientFallback(client *mcp.Client, sc *ScriptConn, version string) (*mcp.ClientSession, error) {
+	type res struct {
+		cs  *mcp.ClientSession
+		err error
+	}
+	ch := make(chan res, 1)
+	go func() {
+		cs, err := client.Connect(context.Background(), sc.Transport(), nil)
+		ch <- res{cs, err}
+	}()
+	synctest.Wait()
+	w := sc.Written()
+	if len(w) != 1 {
+		return nil, fmt.Errorf("handshake: expected 1 written message (server/discover), got %d", len(w))
+	}
+	req, ok := w[0].(*jsonrpc.Request)
+	if !ok || req.Method != "server/discover" {
+		return nil, fmt.Errorf("handshake: first message is not server/discover: %#v", w[0])
+	}
+	sc.Inject(&jsonrpc.Response{ID: req.ID, Error: &jsonrpc.Error{Code: -32601, Message: "method not found"}})
+	synctest.Wait()
+	w = sc.Written()
+	if len(w) != 2 {
+		return nil, fmt.Errorf("handshake: expected initialize after the rejected discover, got %d messages", len(w))
+	}
+	req, ok = w[1].(*jsonrpc.Request)
+	if !ok || req.Method != "initialize" {
+		return nil, fmt.Errorf("handshake: second message is not initialize: %#v", w[1])
+	}
+	result := fmt.Sprintf(`{"protocolVersion":%q,"capabilities":{"tools":{"listChanged":true},"logging":{}},"serverInfo":{"name":"scripted","version":"0"}}`, version)
+	sc.Inject(&jsonrpc.Response{ID: req.ID, Result: json.RawMessage(result)})
+	synctest.Wait()
+	select {
+	case r := <-ch:
+		return r.cs, r.err
+	default:
+		return nil, fmt.Errorf("handshake: Connect did not return after the initialize response")
+	}
+}
+
 // ResetWritten forgets the messages written so far (after the handshake).
 func (c *ScriptConn) ResetWritten() {
 	c.mu.Lock()
